@@ -19,6 +19,7 @@ import (
 	"os"
 	"sort"
 	"sync"
+	"sync/atomic"
 	"time"
 
 	"src.elv.sh/pkg/cli/clitest"
@@ -89,7 +90,28 @@ func (a *area) press(text string) (newline bool, err error) {
 	return false, lib.Infra("code area holds %q after smart-enter on %q", a.got, text)
 }
 
-func record(text string, isPrefix bool, of string, ar *area) (pcase, error) {
+// recordWatched is record under the parse watchdog (syn.ParseLimit); an expiry is confirmed by a
+// second run with a fresh limit before syn.Hang is returned. Texts parse in microseconds; a parse
+// that does not return keeps spinning until the process exits, so the caller stops feeding texts.
+func recordWatched(text string, isPrefix bool, of string, ar *area) (pcase, error) {
+	var pc pcase
+	var err error
+	for try := 0; ; try++ {
+		r := syn.Watch(syn.ParseLimit, "recordInner", func() { pc, err = recordInner(text, isPrefix, of, ar) })
+		if r.Finished && r.Panic == "" {
+			return pc, err
+		}
+		if r.Finished {
+			return pc, lib.Infra("recording %q panicked: %s", text, r.Panic)
+		}
+		if try == 1 {
+			return pcase{text: text, of: of, Prefix: isPrefix}, syn.Hang{Code: text, State: r.State, Limit: syn.ParseLimit}
+		}
+		ar = nil // the retry must not wait for the code area (its lock may be held by the first try)
+	}
+}
+
+func recordInner(text string, isPrefix bool, of string, ar *area) (pcase, error) {
 	pc := pcase{Len: len(text), Prefix: isPrefix, Errs: syn.Errors(text), Enter: !edit.VerifIsSyntaxComplete(text), Area: -1, text: text, of: of}
 	if ar != nil {
 		nl, err := ar.press(text)
@@ -155,6 +177,10 @@ func run(c *lib.Ctx) error {
 				continue
 			}
 			if err := syn.CheckValid(toks, text); err != nil {
+				if h, ok := err.(syn.Hang); ok {
+					c.Reject("program:non-termination", "valid program: "+h.Error(), map[string]any{"text": []byte(text), "of": []byte(text), "prefix": false})
+					return nil // the verdict is out; no further text is fed to a parser that spins
+				}
 				return err
 			}
 			progSeen[text] = true
@@ -220,26 +246,61 @@ func run(c *lib.Ctx) error {
 		}
 	}
 	areaEvery := len(pres)/c.Pick(3000, 30000) + 1
-	cases := make([]pcase, len(pres))
+	all := make([]pcase, len(pres))
+	done := make([]bool, len(pres))
 	var recErr error
+	var hung []int
+	var stop int32
 	var mu sync.Mutex
 	lib.Parallel(len(pres), 4, func(i int) {
+		if atomic.LoadInt32(&stop) > 0 {
+			return
+		}
 		var a *area
 		if i%areaEvery == 0 {
 			a = ar
 		}
-		pc, err := record(pres[i].text, i < nPrefix, pres[i].of, a)
+		pc, err := recordWatched(pres[i].text, i < nPrefix, pres[i].of, a)
 		if err != nil {
 			mu.Lock()
-			if recErr == nil {
+			if _, ok := err.(syn.Hang); ok {
+				hung = append(hung, i)
+				c.Logf("%v", err)
+			} else if recErr == nil {
 				recErr = err
 			}
 			mu.Unlock()
+			atomic.AddInt32(&stop, 1)
+			return
 		}
-		cases[i] = pc
+		all[i], done[i] = pc, true
 	})
-	if recErr != nil {
+	if recErr != nil && len(hung) == 0 {
 		return recErr
+	}
+	sort.Ints(hung)
+	for _, i := range hung {
+		kind := "text"
+		if i < nPrefix {
+			kind = "prefix"
+		}
+		c.Reject(kind+":non-termination", fmt.Sprintf("%q (prefix of valid program %q): parse.Parse / the Enter decision did not return within %s, twice", pres[i].text, pres[i].of, syn.ParseLimit),
+			map[string]any{"text": []byte(pres[i].text), "of": []byte(pres[i].of), "prefix": i < nPrefix})
+	}
+	var cases []pcase // what was recorded (everything, unless a parse did not terminate)
+	for i := range all {
+		if done[i] {
+			cases = append(cases, all[i])
+		}
+	}
+	if len(hung) > 0 {
+		c.Set("not_fed_after_non_termination", len(pres)-len(cases)-len(hung))
+		nPrefix = 0
+		for _, pc := range cases {
+			if pc.Prefix {
+				nPrefix++
+			}
+		}
 	}
 	c.AddEvals(2*len(cases) + len(progs))
 	var withErr, clean, driven, newlines, others int
@@ -322,7 +383,11 @@ func replay(c *lib.Ctx, dir string) error {
 	if err != nil {
 		return err
 	}
-	pc, err := record(string(f.Case.Text), f.Case.Prefix, string(f.Case.Of), ar)
+	pc, err := recordWatched(string(f.Case.Text), f.Case.Prefix, string(f.Case.Of), ar)
+	if h, ok := err.(syn.Hang); ok {
+		c.Reject("prefix:non-termination", h.Error(), map[string]any{"text": f.Case.Text, "of": f.Case.Of, "prefix": f.Case.Prefix})
+		return nil
+	}
 	if err != nil {
 		return err
 	}
